@@ -51,6 +51,7 @@ pub fn acc(name: &str, buf: &[u8], pos: usize) -> Value {
         "null" => { let r = d.null(); res(r, &d, |_| vunit()) }
         "undefined" => { let r = d.undefined(); res(r, &d, |_| vunit()) }
         "simple" => { let r = d.simple(); res(r, &d, vsimple) }
+        #[cfg(feature = "half")]
         "f16" => { let r = d.f16(); res(r, &d, vf32) }
         "f32" => { let r = d.f32(); res(r, &d, vf32) }
         "f64" => { let r = d.f64(); res(r, &d, vf64) }
@@ -61,8 +62,43 @@ pub fn acc(name: &str, buf: &[u8], pos: usize) -> Value {
         "tag" => { let r = d.tag(); res(r, &d, |t| vtag(t.as_u64())) }
         "datatype" => { let r = d.datatype(); res(r, &d, |t| vtype(&type_name(t))) }
         "skip" => { let r = d.skip(); res(r, &d, |_| vunit()) }
+        "item" => { let r = full_item(&mut d, 0); res(r, &d, |_| vunit()) }
         _ => json!({"p":"unsupported"})
     }
+}
+
+/// Full decoding of one data item through the public typed accessors only (dispatch on datatype()),
+/// the way a user-written `Decode` impl for a dynamic value would do it.  It contributes an end
+/// position to compare skip() with; it is not an oracle.
+pub fn full_item(d: &mut Decoder, depth: usize) -> Result<(), Error> {
+    match d.datatype()? {
+        Type::Bool => { d.bool()?; }
+        Type::Null => { d.null()?; }
+        Type::Undefined => { d.undefined()?; }
+        Type::U8 | Type::U16 | Type::U32 | Type::U64 => { d.u64()?; }
+        Type::I8 | Type::I16 | Type::I32 | Type::I64 | Type::Int => { d.int()?; }
+        #[cfg(feature = "half")]
+        Type::F16 => { d.f16()?; }
+        #[cfg(not(feature = "half"))]
+        Type::F16 => { return Err(Error::message("f16 needs feature half")) }
+        Type::F32 => { d.f32()?; }
+        Type::F64 => { d.f64()?; }
+        Type::Simple => { d.simple()?; }
+        Type::Bytes | Type::BytesIndef => { for c in d.bytes_iter()? { c?; } }
+        Type::String | Type::StringIndef => { for c in d.str_iter()? { c?; } }
+        Type::Array | Type::ArrayIndef => match d.array()? {
+            Some(n) => for _ in 0..n { full_item(d, depth + 1)? },
+            None => { while d.datatype()? != Type::Break { full_item(d, depth + 1)? } d.set_position(d.position() + 1) }
+        }
+        Type::Map | Type::MapIndef => match d.map()? {
+            Some(n) => for _ in 0..n { full_item(d, depth + 1)?; full_item(d, depth + 1)? },
+            None => { while d.datatype()? != Type::Break { full_item(d, depth + 1)?; full_item(d, depth + 1)? } d.set_position(d.position() + 1) }
+        }
+        Type::Tag => { d.tag()?; full_item(d, depth + 1)? }
+        Type::Break => return Err(Error::message("unexpected break")),
+        Type::Unknown(_) => return Err(Error::message("unknown type"))
+    }
+    Ok(())
 }
 
 macro_rules! dec_int {
